@@ -113,6 +113,25 @@ Theorem C11_union_dedup_invisible : forall co ms d, coherent ms d -> union_dec c
 Proof. exact union_dec_dedup. Qed.
 Print Assumptions C11_union_dedup_invisible.
 
+(* nested unions (a union as a member of a union, e.g. TypeVar constraints that are unions):
+   the generated method equals the reference when every union inside is in the domain *)
+Theorem C11_nested_union_partial : forall co t d, tcoh co d t -> tsafe co d t = true ->
+  tdec co t d = tref co t d.
+Proof. exact nested_union_partial. Qed.
+Print Assumptions C11_nested_union_partial.
+
+Example C11_nested_nonvacuous :
+  let t := TU 9 [TS KInt; TU 8 [TLeaf 0 w_date; TLeaf 1 (fun _ => None)]; TS KStr] in
+  (forall d, tcoh w_co d t) /\ tsafe w_co (UStr "x") t = true /\ tsafe w_co (UStr "2020-01-01") t = false /\
+  tdec w_co t (UStr "x") = Some (UStr "x") /\ tdec w_co t (UObj "list" "[]") = None.
+Proof.
+  cbv zeta. split; [|repeat split; reflexivity].
+  intro d; simpl; repeat split; unfold coherent; simpl; intros e f g H H';
+    repeat (destruct H as [H|H]; try discriminate; try contradiction);
+    repeat (destruct H' as [H'|H']; try discriminate; try contradiction);
+    inversion H; inversion H'; subst; try reflexivity; discriminate.
+Qed.
+
 (* ---------- Optional ---------- *)
 
 Theorem C11_opt : forall co,
